@@ -5,6 +5,7 @@ import (
 	"github.com/dadrus/heimdall/verif/props/c02"
 	"github.com/dadrus/heimdall/verif/props/c06"
 	"github.com/dadrus/heimdall/verif/props/c07"
+	"github.com/dadrus/heimdall/verif/props/c16"
 )
 
 func main() {
@@ -14,6 +15,7 @@ func main() {
 		c02.Check(),
 		c06.Check(),
 		c07.Check(),
+		c16.Check(),
 	} {
 		checks[c.ID] = c
 	}
